@@ -1,5 +1,5 @@
 (* C19 — going idle triggers clean-up; end-of-day never runs over open transactions.  Statements only. *)
-From Zvt Require Import Base Length Cp437 Encoding Codec Lookup Client ClientProps ClientWire.
+From Zvt Require Import Base Length Cp437 Encoding Codec Lookup Client ClientProps ClientLog ClientWire ClientSent.
 Open Scope N_scope.
 
 (* while other transactions are still open a completed cancel requests nothing more: the world after
@@ -78,6 +78,56 @@ Theorem C19_end_of_day_request : forall cfg, c_password cfg < 10 ^ 6 ->
   req <> nil /\ forall r, dec_cmd FUEL (cmd_of "zvt::packets::EndOfDay") (req ++ r) = Ok (VRec [VInt (c_password cfg)], r).
 Proof. exact end_of_day_request_on_the_wire. Qed.
 
+(* ---- at the level of the log, for every state of the client, every world (terminal behaviour, lost connections, retries) ---- *)
+
+(* "while other transactions are still open, commit and cancel never request end-of-day": among the events such a call adds
+   to the log there is no write whose control field is 06 50 *)
+Theorem C19_busy_commit_never_requests_end_of_day : forall cfg st tok amount w x rest,
+  remove_tok tok (s_txs st) = x :: rest ->
+  sent_in (fun b => ~ is_end_of_day b) w (snd (commit_transaction cfg st tok amount w)).
+Proof. exact commit_busy_never_requests_end_of_day. Qed.
+Theorem C19_busy_cancel_never_requests_end_of_day : forall cfg st tok w x rest,
+  remove_tok tok (s_txs st) = x :: rest ->
+  sent_in (fun b => ~ is_end_of_day b) w (snd (cancel_transaction cfg st tok w)).
+Proof. exact cancel_busy_never_requests_end_of_day. Qed.
+(* the predicate does recognise the request: the end-of-day request of every accepted configuration starts with 06 50 *)
+Theorem C19_end_of_day_request_is_recognised : forall cfg, c_password cfg < 10 ^ 6 -> is_end_of_day (end_of_day_req cfg).
+Proof. exact end_of_day_req_is_end_of_day. Qed.
+(* more precisely: a busy cancel writes nothing but housekeeping (acknowledgements; registration and identity query when the
+   connection has to be re-established) and THE reversal of the receipt recorded for its token ... *)
+Theorem C19_busy_cancel_vocabulary : forall cfg st tok rn w x rest,
+  assoc_tok tok (s_txs st) = Some rn -> remove_tok tok (s_txs st) = x :: rest ->
+  sent_in (fun b => housekeeping cfg b \/ b = reversal_req cfg rn) w (snd (cancel_transaction cfg st tok w)).
+Proof. exact cancel_busy_vocabulary. Qed.
+(* ... and one that goes idle adds at most the query, reversals of what the terminal reports, and the end-of-day request *)
+Theorem C19_cancel_vocabulary : forall cfg st tok rn w,
+  assoc_tok tok (s_txs st) = Some rn ->
+  sent_in (fun b => housekeeping cfg b \/ b = pending_query \/ b = end_of_day_req cfg \/ exists r, b = reversal_req cfg r)
+          w (snd (cancel_transaction cfg st tok w)).
+Proof. exact cancel_vocabulary. Qed.
+(* whole histories: every write in the complete log of any history against any scripted terminal is one of ten request forms;
+   their control fields — never an authorisation or another payment command *)
+Theorem C19_history_vocabulary : forall cfg ops scripts,
+  let '(cfg', _, _) := new_client cfg scripts in
+  let '(_, _, _, w) := run_history cfg ops scripts in
+  forall id t b, In (EWrite id t b) (w_log w) -> client_vocabulary cfg' b.
+Proof. exact history_vocabulary. Qed.
+Theorem C19_vocabulary_control_fields : forall cfg b, client_vocabulary cfg b ->
+  b = nil \/ exists h, head2 b = Some h /\ In h vocabulary_heads.
+Proof. exact vocabulary_control_fields. Qed.
+
+(* non-vacuity: a state with two open transactions meets the hypotheses, and sent_in does separate logs *)
+Example C19_ex_busy_state : let st := {| s_txs := [([65], 7); ([66], 8)]; s_max := 2 |} in
+  assoc_tok [65] (s_txs st) = Some 7 /\ remove_tok [65] (s_txs st) = [([66], 8)].
+Proof. split; reflexivity. Qed.
+Example C19_ex_sent_in_separates : forall w, ~ sent_in (fun b => ~ is_end_of_day b) w (write_t w 0 [6; 80; 3; 0; 0; 0]).
+Proof.
+  intros w [evs [E F]]. cbn in E. destruct evs as [|e evs].
+  - cbn in E. assert (L : length (EWrite 0 (w_now w) [6; 80; 3; 0; 0; 0] :: w_log w) = length (w_log w)) by (rewrite E; reflexivity).
+    cbn in L. lia.
+  - cbn in E. injection E as <- E. apply (F 0 (w_now w) [6; 80; 3; 0; 0; 0]); [left; reflexivity|reflexivity].
+Qed.
+
 Print Assumptions C19_pending_reports_receipt.
 Print Assumptions C19_end_of_day_request.
 Print Assumptions C19_chain_first_asks_for_pending.
@@ -91,3 +141,10 @@ Print Assumptions C19_cancel_busy_no_end_of_day.
 Print Assumptions C19_cancel_idle_runs_cleanup.
 Print Assumptions C19_end_of_day_outcomes.
 Print Assumptions C19_end_of_day_clears.
+Print Assumptions C19_busy_commit_never_requests_end_of_day.
+Print Assumptions C19_busy_cancel_never_requests_end_of_day.
+Print Assumptions C19_end_of_day_request_is_recognised.
+Print Assumptions C19_busy_cancel_vocabulary.
+Print Assumptions C19_cancel_vocabulary.
+Print Assumptions C19_history_vocabulary.
+Print Assumptions C19_vocabulary_control_fields.
